@@ -802,6 +802,36 @@ def r4_ancillary_seeding(ctx):
                   + ": the model's ancillary values (key equal to a fit "
                   "parameter) then do not seed the initial parameters "
                   "although they were requested")
+    # the ancillary value is the last word: nothing assigns a parameter's
+    # value after the seeding loop (a built-in guess placed behind it would
+    # overwrite the ancillary of the same name)
+    for n in walk_no_nested(fn, False):
+        later = None
+        if isinstance(n, ast.Call) and isinstance(
+                n.func, ast.Attribute) and n.func.attr == "set" and \
+                isinstance(n.func.value, ast.Subscript) and dotted(
+                    n.func.value.value) == "params" and n not in sets:
+            later = n
+        elif isinstance(n, (ast.Assign, ast.AugAssign)):
+            for t_ in (n.targets if isinstance(n, ast.Assign)
+                       else [n.target]):
+                if isinstance(t_, ast.Attribute) and t_.attr == "value" \
+                        and isinstance(t_.value, ast.Subscript) and dotted(
+                            t_.value.value) == "params":
+                    later = n
+        if later is None or not loops_:
+            continue
+        st_ = later
+        while not isinstance(st_, ast.stmt):
+            st_ = st_._parent
+        if any(precedes(lp_, st_) for lp_ in loops_):
+            key_ = norm(later.func.value.slice if isinstance(
+                later, ast.Call) else later)[:40]
+            ctx.fail(later, f"{key_} assigned after the ancillary seeding",
+                     "guess_initial_parameters assigns the parameter "
+                     f"{key_} after the ancillary seeding: an ancillary "
+                     "value of the same name no longer seeds the initial "
+                     "parameter (it is overwritten by the built-in guess)")
     # the loop must be reachable with the default arguments: not disabled
     core = ctx.repo.mod("model.core")
     gk = core.methods("NaniteFitModel").get("get_anc_parm_keys")
